@@ -92,6 +92,8 @@ def text_value(rng, vc, thorough=False):
         return rng.choice([
             "\x00", "a\x00b", "\udc80", "\udcff\udc80", "pre\udcfepost", b"\xff\xfeabc", b"caf\xe9", "\ufeffbom", "line1\nline2",
             "quote\"'`", "\\x00", "𝔘\udcc3", "\x7f\x1b[0m", "%s{}{0}", "None", "nul\x00\udcff",
+            # text that is not stable under Unicode normalisation / case folding
+            "cafe\u0301", "\u212b\u2126\u212a", "\u1100\u1161\u11a8", "\uf900\ufb01", "Stra\u00dfe \u0130\u0131 \u01c5", "\u1e9b\u0323",
         ])
     return _rand_text(rng)
 
@@ -230,9 +232,10 @@ def datetime_value(rng, vc, thorough=False):
 
 
 POSIX_PATHS = ["/", "/a/b", "a/b/c.txt", ".", "..", "~", "/tmp/with space/f", "a//b", "/trailing/", "user/.bash_history", "\\tmp\\foo", "/ünï/códe", "/sur\udcff",
+               "/Users/rene\u0301/cafe\u0301.txt", "/\u212bngstro\u0308m/\u1100\u1161", "/\uf900/\u2126",
                "c:\\not\\windows", "/" + "d/" * 50 + "f"]
 WIN_PATHS = ["c:\\windows\\system32", "C:/Users/Public", "\\\\srv\\share\\f.txt", "relative\\p", "d:", "d:\\", "\\c:\\x", "/sysvol/Windows", "c:\\my'quotes\".txt",
-             "c:\\ünï\\f", "\\\\?\\c:\\x", "e:\\trailing\\"]
+             "c:\\ünï\\f", "\\\\?\\c:\\x", "e:\\trailing\\", "c:\\Users\\Rene\u0301\\\u212b.txt"]
 
 
 def path_value(rng, vc, thorough=False):
@@ -259,7 +262,7 @@ def command_value(rng, vc, thorough=False):
     if vc == "hostile":
         return rng.choice([("posix", "a \"b c\" 'd e' \\f"), ("win", "x.exe \"q q\" 'r r'"), ("posix", "tab\targ new\nline"), ("auto", "c:\\auto\\detect.exe /x"), ("auto", "auto detect posix"),
                            ("win", "\"C:\\Users\\O'Neil\\my app.exe\" /q"), ("win", "'c:\\path with space\\it''s.exe' -a \"b c\""), ("posix", "\"/opt/o'neil dir/run me\" --flag 'x y'"),
-                           ("posix", "'/bin/ends with space ' arg"), ("posix", "/bin/sh -c 'echo \"nested \\\"q\\\"\"'")])
+                           ("posix", "'/bin/ends with space ' arg"), ("posix", "/opt/cafe\u0301/\u212bpp --n\u0303 x"), ("win", "c:\\Rene\u0301\\a\u030a.exe /\u2126"), ("posix", "/bin/sh -c 'echo \"nested \\\"q\\\"\"'")])
     if rng.random() < 0.5:
         return ("posix", rng.choice(POSIX_CMDS))
     return ("win", rng.choice(WIN_CMDS))
